@@ -72,35 +72,49 @@ def r_code_source(F, R, cat=None):
             (cbi, ct) = creates[0]
             counts = ctx.org.operand(ct["args"][0])
             roots = {r for (r, p) in counts}
-            # everything inserted into `counts` comes from iterating the regions' stats
+            # everything inserted into `counts` derives from the regions' stats (provenance of the
+            # keys and increments: loops, flat_map, nested loops all look the same here)
             fed = set()
+            fp_any = False
             for e in effs:
-                if e.cls == "append" and any(c is ctx and r in roots for (c, (r, p)) in e.targets or ()):
-                    for os_ in e.argorigins[1:]:
+                if e.cls in ("append", "assign") and any(r in roots for (c, (r, p)) in e.targets or ()):
+                    srcs_ = list(e.argorigins[1:]) if e.cls == "append" else [e.value or set()]
+                    for os_ in srcs_:
                         fl, fp = arg_projection_fields(F, e.ctx, os_)
                         fed |= fl
-            # the loop source
-            srcs = set()
-            for (bi, t) in b.calls():
-                if callee_tag(t.get("callee")) == ("Iterator", "flat_map"):
-                    fl, fp = arg_projection_fields(F, ctx, [o for a in t["args"] for o in ctx.org.operand(a)])
-                    if fp:
-                        srcs |= fl
+                        fp_any = fp_any or fp
+            srcs = fed
             ok = srcs == {"stats"}
-            why.append("symbol counts iterate the sources' %s" % sorted(srcs))
+            why.append("symbol counts are computed from the sources' %s" % sorted(srcs))
+            # the counts of the source regions are *summed*: map writes with overwrite semantics
+            # (insert / extend / collect) lose the counts of all but one region
+            overw = [e for e in effs if e.cls == "append" and e.tag in (("BTreeMap", "insert"), ("Extend", "extend"),
+                                                                        ("BTreeMap", "extend"), ("BTreeMap", "append"))
+                     and any(r in roots for (c, (r, p)) in e.targets or ())]
+            sums = [e for e in effs if e.cls == "assign" and any(r in roots and "[]" in p for (c, (r, p)) in e.targets or ())
+                    and (trees(e.ctx, e.value)[0] == "bin" and trees(e.ctx, e.value)[1] == "Add")]
+            if overw:
+                ok = False
+                why.append("counts written with overwrite semantics: %s" % [("%s::%s" % e.tag, e.line) for e in overw])
+            elif not sums:
+                R.undecided_site("R-CODE-SOURCE", b.label(), "accumulation of the symbol counts not recognised")
+            else:
+                why.append("counts accumulate by += at lines %s" % sorted({e.line for e in sums}))
             # new container: stats empty, inner = Ok((code, empty sized buffer, 0))
             for (root, fm) in constructed(ctx, HC):
-                st = [tree(ctx, o) for o in fm.get("stats", ())]
-                if not (len(st) == 1 and st[0][0] == "call" and st[0][1] == ("Default", "default")):
+                from model import absval
+                st = [absval(ctx, o) for o in fm.get("stats", ())]
+                if not (st and all(v == ("empty",) for v in st)):
                     ok = False
-                    why.append("stats starts as %s" % [show(x) for x in st])
+                    why.append("stats starts as %s" % st)
                 inn = [tree(ctx, o) for o in fm.get("inner", ())]
                 good = False
                 for t in inn:
                     if t[0] == "agg" and t[1] == "Result::Ok" and t[2] and t[2][0][0] == "agg" and len(t[2][0][2]) == 3:
                         code, buf, bits = t[2][0][2]
                         good = code[0] == "call" and code[1] == ("Huffman", "create_from") and \
-                            buf[0] == "call" and buf[1] in (("Vec", "with_capacity"), ("Vec", "new")) and \
+                            buf[0] == "call" and buf[1] in (("Vec", "with_capacity"), ("Vec", "new"),
+                                                            ("Default", "default")) and \
                             bits == ("const", "0")
                 if not good:
                     ok = False
@@ -139,6 +153,10 @@ def r_stats_and_arms(F, R, cat=None):
             is_plus_one(trees(e.ctx, e.value)) for e in incs)
         # symbols handed to push_symbols / the raw buffer derive from the item
         sinks = []
+        for (bi, t_) in b.calls():
+            if callee_tag(t_.get("callee")) == ("Huffman", "encode") and len(t_["args"]) >= 3:
+                sym = operand_tree(ctx, t_["args"][2])
+                sinks.append(("encoded", mentions(sym, item), show(sym)[:60]))
         for o in ctx.org.local(0):
             t = tree(ctx, o)
             if t[0] == "call" and t[1] == ("fn", "push_symbols"):
